@@ -20,7 +20,6 @@ WALKER = dict(bin="walker", driver_cmd=["python3", "lib/null_driver.py"], case_s
 CSTR = dict(bin="cstrfmt", driver="cstrfmt_driver", model_ml="cstrfmt_model", extract=["CStrFmt"], case_seconds=3)
 
 CONFIG = dict(
-    claimed=False,  # until the repairs of the defects the walker finds are merged
 
     claim="Machine-checked proof that the executable models - which return the distinguished outcome Fault for every panic of a checked build (integer overflow, slice index, length mismatch, unwrap) - never return it: header validation of both formats and the wrapper constructors on any buffer at any address (C02_validate_total, C02_wrapper_total), address translation on any section table (C02_rva_to_file_offset_total ...), slicing and reading on file and mapped views for any (address, min_size, align), the typed read family on both paths including the sentinel scans, relocation iteration/fold/build, the Rich header scans, the string enumerator, the pattern parser on any byte string, the pattern interpreter on any atom list, and the C string formatters. The directory parsers state their own no-fault theorems in C06, C08, C09, C10, C12, C13, C15, C18. Tied to /repo by re-running every component correspondence in debug (overflow checks, std UB checks) AND release builds with every API call under catch_unwind in isolated workers, plus a walker that calls the whole public API (accessors, directory parsers, iterators, Debug/Display, serde_json, scanner, to_view/to_file, resources incl. fsck/version info/icon groups) on the shipped PE files (2 demo DLLs, 11 tiny, 217 corkami) and field-level corruptions of them.",
     note="Partial: stack bytes are outside the model (depth is bounded by theorems, F31 - about 10k skip ranges in one pattern exhaust an 8 MiB stack in a debug build - is outside the generators); formatters and serializers other than the C string escape loops are exercised by the walker, not modelled. Trusted: Coq kernel, extraction and glue, catch_unwind + process isolation of the harness.",
